@@ -148,3 +148,153 @@ class MonC02(Monitor):
 
 
 MONITORS = {"C02": MonC02}
+
+
+# ==========================================================================
+def new_slots(st, w):
+    """Slots appended on channel `w` by this step (post minus pre)."""
+    pre = next((c for c in st.pre["chans"] if c["name"] == w), None)
+    post = next((c for c in st.post["chans"] if c["name"] == w), None)
+    if post is None:
+        return [], 0
+    n0 = len(pre["slots"]) if pre else 0
+    return post["slots"][n0:], n0
+
+
+def within_limits(pulse: Pulse, ch, det_map=None):
+    """Independent statement of 'inside every limit of the channel' -> (ok, which)."""
+    amp = pulse.amplitude.samples.as_array(detach=True)
+    det = pulse.detuning.samples.as_array(detach=True)
+    if not (np.all(np.isfinite(amp)) and np.all(np.isfinite(det))):
+        return False, "finite"
+    if ch.max_amp is not None and np.any(amp > ch.max_amp):
+        return False, "amp"
+    if ch.max_abs_detuning is not None and np.any(np.round(np.abs(det), 6) > ch.max_abs_detuning):
+        return False, "det"
+    avg = np.average(amp)
+    if 0 < avg < ch.min_avg_amp:
+        return False, "avg"
+    if isinstance(ch, DMM):
+        rd = np.round(det, 6)
+        if np.any(rd > 0):
+            return False, "dmm-positive"
+        w = det_map.weights if det_map is not None else np.array([1.0])
+        if ch.bottom_detuning is not None and np.max(w) * np.min(rd) < ch.bottom_detuning:
+            return False, "dmm-bottom"
+        if ch.total_bottom_detuning is not None and np.sum(w) * np.min(rd) < ch.total_bottom_detuning:
+            return False, "dmm-total-bottom"
+    return True, None
+
+
+def limit_margin(pulse: Pulse, ch, det_map=None) -> float:
+    """Smallest relative distance of the pulse to any limit (to recognise 1-ulp boundary cases)."""
+    amp = pulse.amplitude.samples.as_array(detach=True)
+    det = pulse.detuning.samples.as_array(detach=True)
+    m = []
+    if ch.max_amp is not None:
+        m.append(abs(float(np.max(amp)) - ch.max_amp))
+    if ch.max_abs_detuning is not None:
+        m.append(abs(float(np.max(np.round(np.abs(det), 6))) - ch.max_abs_detuning))
+    if ch.min_avg_amp:
+        m.append(abs(float(np.average(amp)) - ch.min_avg_amp))
+    if isinstance(ch, DMM) and det_map is not None:
+        rd = np.round(det, 6)
+        if ch.bottom_detuning is not None:
+            m.append(abs(float(np.max(det_map.weights) * np.min(rd)) - ch.bottom_detuning))
+        if ch.total_bottom_detuning is not None:
+            m.append(abs(float(np.sum(det_map.weights) * np.min(rd)) - ch.total_bottom_detuning))
+    return min(m) if m else 1.0
+
+
+class MonC01(Monitor):
+    """Every scheduled pulse respects the limits of its channel and device."""
+
+    prop = "C01"
+
+    def pre(self, ls, op):
+        self.pulse = None
+        self.chobj = None
+        self.detmap = None
+        k = op["k"]
+        if k not in ("add", "adddmm", "addeom"):
+            return
+        sch = ls.real.seq._schedule.get(real_name(op["ch"]))
+        if sch is None:
+            return
+        self.chobj = sch.channel_obj
+        self.detmap = getattr(sch, "detuning_map", None)
+        try:
+            with warnings.catch_warnings():
+                warnings.simplefilter("ignore")
+                if k == "add":
+                    self.pulse = make_pulse(op["pulse"])
+                elif k == "adddmm":
+                    self.pulse = Pulse.ConstantAmplitude(0, make_wf(op["wf"]), 0)
+                elif sch.eom_blocks:
+                    b = sch.eom_blocks[-1]
+                    self.pulse = Pulse.ConstantPulse(op["dur"], float(b.rabi_freq), float(b.detuning_on), 0.0)
+        except Exception:
+            self.pulse = None
+
+    def post(self, ls, st):
+        fails = []
+        op = st.op
+        k = op["k"]
+        seq = ls.real.seq
+        # (a) every pulse slot appended by this call, by whatever route, is within limits
+        for name, sch in seq._schedule.items():
+            w = wire_name(name)
+            ch = sch.channel_obj
+            new, n0 = new_slots(st, w)
+            for j, sl in enumerate(new):
+                if sl["k"] != "P":
+                    continue
+                real_slot = sch.slots[n0 + j]
+                pulse = real_slot.type
+                ok, which = within_limits(pulse, ch, getattr(sch, "detuning_map", None))
+                if not ok:
+                    fails.append(self.F("scheduled-over-limit", f"{name}: scheduled pulse violates {which}",
+                                        op=k, which=which))
+                d = int(pulse.duration)
+                if d % ch.clock_period or d < ch.min_duration:
+                    fails.append(self.F("scheduled-duration", f"{name}: scheduled duration {d} (clock {ch.clock_period}, min {ch.min_duration})", op=k))
+                if ch.max_duration is not None and d > ch.max_duration:
+                    fails.append(self.F("scheduled-over-max-duration",
+                                        f"{name}: scheduled duration {d} > max_duration {ch.max_duration}",
+                                        op=k, clock_divides_max=(ch.max_duration % ch.clock_period == 0)))
+        mx = seq._device.max_sequence_duration
+        if mx is not None and st.real[0] == "ok" and k in MUT_TIMELINE:
+            tot = max((s.slots[-1].tf for s in seq._schedule.values() if s.slots), default=0)
+            if tot > mx:
+                fails.append(self.F("over-max-sequence-duration", f"sequence lasts {tot} > {mx}", op=k))
+        # (b) converse: a pulse inside every limit is not refused for a limit reason, and is
+        # scheduled unchanged (clock multiple) or lengthened to the next clock multiple
+        if self.pulse is not None and self.chobj is not None:
+            ch = self.chobj
+            ok, which = within_limits(self.pulse, ch, self.detmap)
+            d = int(self.pulse.duration)
+            dur_ok = d >= ch.min_duration and (ch.max_duration is None or d <= ch.max_duration)
+            margin = limit_margin(self.pulse, ch, self.detmap)
+            if st.real[0] == "err" and st.real[1] in LIMIT_ERRS - {"overMaxSeq", "notResizable", "durTooShort", "durTooLong"}:
+                if ok and margin > 1e-9:
+                    fails.append(self.F("spurious-limit-rejection", f"pulse within limits refused with {st.real[1]}", op=k))
+            # (the automatically inserted delay may itself exceed a small max_duration and be
+            # refused with the same error class; only channels where that cannot happen count)
+            big = ch.max_duration is None or ch.max_duration >= 10 ** 6
+            if st.real[0] == "err" and st.real[1] in ("durTooShort", "durTooLong") and dur_ok and big:
+                fails.append(self.F("spurious-duration-rejection", f"duration {d} within [{ch.min_duration},{ch.max_duration}] refused with {st.real[1]}", op=k))
+            if st.real[0] == "ok" and not (ok and dur_ok) and margin > 1e-9 and which != "finite":
+                fails.append(self.F("accepted-over-limit", f"pulse outside limits ({which or 'duration'}) accepted", op=k))
+            if st.real[0] == "ok" and k != "est":
+                new, _ = new_slots(st, op["ch"])
+                ps = [s for s in new if s["k"] == "P" and not (s["dd"] and k == "addeom" and False)]
+                if ps:
+                    got = ps[-1]["dur"]
+                    want = adjusted_duration(ch, d)
+                    if want is not None and got != want:
+                        fails.append(self.F("duration-adjustment", f"requested {d}, scheduled {got}, expected {want}", op=k))
+        return fails
+
+
+MUT_TIMELINE = {"declare", "detmap", "target", "add", "adddmm", "addeom", "delay", "align", "eomon", "eommod", "eomoff"}
+MONITORS["C01"] = MonC01
